@@ -102,6 +102,9 @@ def make_callee(term):
         c.tname = c.name
         if c.local_key:
             c.name = c.local_key
+        elif c.name in ("Try::branch", "FromResidual::from_residual") and c.recv and ty_head(c.recv) in ("Option", "Result"):
+            # the `?` operator: named after the carrier type so that it can be read as a match
+            c.name = "%s::%s" % (ty_head(c.recv), c.method)
         if fn.get("local") and not r:
             # unresolved local trait method (generic receiver), e.g. Fragment::width
             c.krate = fn.get("krate")
